@@ -188,7 +188,9 @@ def rich_data(r, t, depth=0):
     x = r.random()
     if depth >= 3 or x < 0.4:
         return r.choice(["a", "xy", "", 0, 1, 2, 7, -3, 1.5, True, False, None, "line1\nline2", "é", "1", "true", "null", " padded ",
-                         "a\n\nb\n", "long " + "word " * 24 + "end", "tab\there"])
+                         "a\n\nb\n", "long " + "word " * 24 + "end", "tab\there",
+                         # numbers beyond what the narrower output formats' own serialisers accept (plistlib: [-2**63, 2**64))
+                         2**63, 2**64 - 1, 2**64, -2**63, -2**63 - 1, 10**30, -10**30, 1e308, 5e-324, -0.0, 1e-320])
     if x < 0.65:
         return [rich_data(r, t, depth + 1) for _ in range(r.randint(0, 3))]
     d = {}
